@@ -62,6 +62,7 @@ type storedSpec struct {
 	badFirstCCLine bool // a Cache-Control line with an unterminated quoted-string in front of the real one
 	bsFirst        bool // an element ending in a backslash OUTSIDE a quoted-string in front of the directives
 	rfc850         bool // Expires and Last-Modified in the obsolete rfc850 layout (valid: recipients must accept it)
+	build          bool // an ordinary end-to-end field "X-Build" on the stored response
 	zeroDate       bool // Date: Mon, 01 Jan 0001 00:00:00 GMT (Go's zero time, a valid HTTP-date of a response two millennia old)
 	delayNs        int64
 	extra          Hdr
@@ -93,7 +94,7 @@ func (g *G) genStored(focus string) storedSpec {
 		}
 	}
 	if g.chance(0.45) {
-		s.lmOff = pick(g, "10", "15", "25", "100", "1000", "3600", "36000", "3600000", "-10", "0")
+		s.lmOff = pick(g, "10", "15", "25", "100", "1000", "3600", "36000", "3600000", "-10", "0", "946684800", "1420070400", "12614400000")
 	}
 	if g.chance(0.3) {
 		s.age = pick(g, "0", "3", "5", "50", "-5", "junk", "100000000000000000000", "9223372036", "9223372037", "2147483648", "1.5",
@@ -111,7 +112,9 @@ func (g *G) genStored(focus string) storedSpec {
 		}
 	}
 	if g.chance(0.1) {
-		s.flags = append(s.flags, pick(g, `no-cache="X-Secret"`, `no-cache="X-Secret"`, `no-cache="ETag"`, `no-cache="Last-Modified, Etag"`))
+		s.flags = append(s.flags, pick(g, `no-cache="X-Secret"`, `no-cache="X-Secret"`, `no-cache="ETag"`, `no-cache="Last-Modified, Etag"`,
+			// the fields the cache itself sets on what it serves: naming them withholds the ORIGIN's, not the cache's own
+			`no-cache="Age"`, `no-cache="age, X-Secret"`, `no-cache="X-Httpcache-Status, X-From-Cache"`))
 		if g.chance(0.3) {
 			// the qualified form given twice: the fields of both lists are covered
 			s.flags = append(s.flags, pick(g, `no-cache="X-Other"`, `no-cache="x-other, Date"`, `no-cache=X-Other`))
@@ -134,6 +137,7 @@ func (g *G) genStored(focus string) storedSpec {
 	s.badFirstCCLine = g.chance(0.03)
 	s.bsFirst = g.chance(0.03)
 	s.rfc850 = g.chance(0.12)
+	s.build = g.chance(0.3)
 	s.zeroDate = !s.noDate && g.chance(0.03)
 	if g.chance(0.2) {
 		s.delayNs = pick(g, int64(1), sec, 2*sec, 3*sec+1)
@@ -216,6 +220,9 @@ func (s storedSpec) reply(atNs int64, body string) Reply {
 		} else {
 			h = append(h, [2]string{"Last-Modified", httpDate(dateSec - off)})
 		}
+	}
+	if s.build {
+		h = append(h, [2]string{"X-Build", "42"})
 	}
 	if s.age != "" {
 		if strings.HasPrefix(s.age, ",") {
@@ -310,7 +317,11 @@ func (g *G) validationReply(atNs int64, st storedSpec) Reply {
 		if g.chance(0.2) {
 			h = append(h, [2]string{"Content-Length", "999"})
 		}
-		if g.chance(0.2) {
+		if g.chance(0.1) {
+			// the 304 names, as connection-specific for ITSELF, a field the stored response carries end-to-end: that
+			// says nothing about the stored field, which stays
+			h = append(h, [2]string{"Connection", "X-Build"})
+		} else if g.chance(0.2) {
 			h = append(h, [2]string{"Connection", "X-Hop"}, [2]string{"X-Hop", "h"})
 			if g.chance(0.5) {
 				// a second Connection field line names a second connection-specific field
